@@ -242,26 +242,28 @@ func AddStandardFilters(fd FilterDictionary) { //nolint: gocyclo
 	fd.AddFilter("truncate", func(s string, length func(int) int, ellipsis func(string) string) string {
 		n := length(50)
 		el := ellipsis("...")
-		if n > maxRegexpRepeat+len(el) || len(el) > maxRegexpRepeat {
+		// lengths are counted in characters, the ellipsis included; a newline is a character
+		elLen := utf8.RuneCountInString(el)
+		if n > maxRegexpRepeat+elLen || elLen > maxRegexpRepeat {
 			// the pattern below cannot express such counts
 			rs := []rune(s)
 			if len(rs) <= n {
 				return s
 			}
 			keep := 0
-			if n >= len(el) {
+			if n >= elLen {
 				// otherwise the ellipsis alone is longer than the requested length
-				keep = n - len(el)
+				keep = n - elLen
 			}
 			return string(rs[:keep]) + el
 		}
-		if n < len(el) {
+		if n < elLen {
 			// no room even for the ellipsis: the pattern below would not match (and for a huge
 			// negative n the subtraction would wrap around into an invalid repeat count)
 			return s
 		}
 		// runes aren't bytes; don't use slice
-		re := regexp.MustCompile(fmt.Sprintf(`^(.{%d})..{%d,}`, n-len(el), len(el)))
+		re := regexp.MustCompile(fmt.Sprintf(`(?s)^(.{%d})..{%d,}`, n-elLen, elLen))
 		return re.ReplaceAllString(s, `$1`+el)
 	})
 	fd.AddFilter("truncatewords", func(s string, length func(int) int, ellipsis func(string) string) string {
